@@ -6,6 +6,8 @@ import (
 	"fmt"
 	"math"
 	"strings"
+	"sync"
+	"sync/atomic"
 	"testing"
 	"testing/synctest"
 	"time"
@@ -84,7 +86,9 @@ type WrapCase struct {
 // expire" (cache.New: "less than zero (or NoExpiration)"; 0 likewise); one hour is positive but outlives every case.
 var cacheKinds = []time.Duration{cache.NoExpiration, 0, -time.Second, math.MinInt64, time.Hour, -2}
 
-func kindName(k int) string { return fmt.Sprintf("cache.New(default lifetime %d ns, no cleanup)", int64(cacheKinds[k])) }
+func kindName(k int) string {
+	return fmt.Sprintf("cache.New(default lifetime %d ns, no cleanup)", int64(cacheKinds[k]))
+}
 
 func (c WrapCase) norm() WrapCase {
 	// int8 is the narrowest counter: keep n and n-calls away from its limits, the
@@ -710,6 +714,58 @@ func delayProp(c DelayCase, r *pbt.R) error {
 
 // ---------------------------------------------------------------------------
 
+// ---------------------------------------------------------------------------
+// Once wrappers that belong to different caches do not know of each other
+
+// OnceParCase: G goroutines (2..4), each with a cache and a callback of its own that takes Lat[g] ms of virtual time, call
+// Once at the instants Start[g] ms and once more when that call has returned: the callbacks overlap.
+type OnceParCase struct {
+	Start []int `json:"start_ms"`
+	Lat   []int `json:"latency_ms"`
+}
+
+func onceParProp(c OnceParCase, r *pbt.R) error {
+	g := len(c.Start)
+	if g < 1 || g > 8 || len(c.Lat) != g {
+		return nil
+	}
+	runs := make([]atomic.Int32, g)
+	got := make([][2]int, g)
+	var wg sync.WaitGroup
+	for i := 0; i < g; i++ {
+		i := i
+		cc := cache.New[string, int](cache.NoExpiration, 0)
+		wg.Add(1)
+		go func() {
+			defer wg.Done()
+			time.Sleep(time.Duration(((c.Start[i]%50)+50)%50) * time.Millisecond)
+			for call := 0; call < 2; call++ {
+				got[i][call] = gogu.Once[string, int, int](cc, func() int {
+					runs[i].Add(1)
+					time.Sleep(time.Duration(1+((c.Lat[i]%20)+20)%20) * time.Millisecond)
+					return 1000*(i+1) + int(runs[i].Load())
+				})
+			}
+		}()
+	}
+	wg.Wait()
+	overlap := false
+	for i := 0; i < g; i++ {
+		for j := 0; j < g; j++ {
+			si, sj := ((c.Start[i]%50)+50)%50, ((c.Start[j]%50)+50)%50
+			if i != j && sj >= si && sj < si+1+((c.Lat[i]%20)+20)%20 {
+				overlap = true
+			}
+		}
+		if n := runs[i].Load(); n != 1 || got[i][0] != 1000*(i+1)+1 || got[i][1] != got[i][0] {
+			return fmt.Errorf("%d goroutines, each with a cache and a callback of its own, starts %v ms, callback latencies %v ms (+1): wrapper %d ran its callback %d time(s) and its two calls returned %v, want one run and twice its own first result %d",
+				g, c.Start, c.Lat, i, n, got[i], 1000*(i+1)+1)
+		}
+	}
+	r.NonTrivialIf(overlap, "a wrapper's first call came while another wrapper's callback was running")
+	return nil
+}
+
 func TestProp(t *testing.T) {
 	const scopeText = "enumerated: every n in -2..8 (thorough -4..12)"
 	pbt.Run(t, "C18",
@@ -755,6 +811,27 @@ func TestProp(t *testing.T) {
 			},
 			RapidQuick: 100, RapidThorough: 2000,
 			Fixed: []OnceCase{{Calls: 1}, {Calls: 2}, {Calls: 5}, {Calls: 3, Zero: true}},
+		},
+		&pbt.Check[OnceParCase]{
+			Name: "once-parallel",
+			Rule: "2..4 goroutines, each with a cache and a slow callback of its own (1..20ms of virtual time), call Once at instants 0..49ms and once more afterwards, so that callbacks of different wrappers overlap: every wrapper runs its own callback exactly once and both its calls return its own first result. " +
+				"Enumerated: 2 wrappers x starts in {0,1,5} x latencies in {0,4} ms; random: 2..4 wrappers. Non-trivial = a first call fell into another wrapper's running callback.",
+			Enum: func(s pbt.Src, _ bool) OnceParCase {
+				return OnceParCase{Start: []int{pbt.Pick(s, 0, 1, 5), pbt.Pick(s, 0, 1, 5)}, Lat: []int{pbt.Pick(s, 0, 4), pbt.Pick(s, 0, 4)}}
+			},
+			Gen: func(s pbt.Src, _ bool) OnceParCase {
+				g := 2 + s.Intn(3)
+				c := OnceParCase{}
+				for i := 0; i < g; i++ {
+					c.Start = append(c.Start, s.Intn(12))
+					c.Lat = append(c.Lat, s.Intn(20))
+				}
+				return c
+			},
+			Prop:       onceParProp,
+			OutOfEnum:  func(c OnceParCase, _ bool) bool { return len(c.Start) != 2 },
+			RapidQuick: 100, RapidThorough: 3000,
+			Bubble: true,
 		},
 		&pbt.Check[OnceExpCase]{
 			Name: "once-expiry",
